@@ -80,14 +80,14 @@ func runC12(s *kernel.Sim) {
 		return key{methods[tp.Choose(2)], urls[tp.Choose(3)], ids[tp.Choose(2)]}
 	}
 	n := 0
-	pad := ""
-	if sizeRun {
-		pad = strings.Repeat("x", 300*1024)
+	pads := []string{""}
+	if sizeRun { // bodies of different sizes against the 1 MB cache
+		pads = []string{strings.Repeat("x", 50*1024), strings.Repeat("x", 300*1024), strings.Repeat("x", 600*1024)}
 	}
 	// doResponse stores (maybe) a response with a unique body.
 	doResponse := func(k key) {
 		n++
-		body := fmt.Sprintf("body-%d-%s", n, pad)
+		body := fmt.Sprintf("body-%d-%s", n, pads[tp.Choose(len(pads))])
 		st := &c12stored{key: keyStr(k), at: s.Now(), size: len(body)}
 		hdr := map[string]string{"X-N": fmt.Sprint(n)}
 		if throttling {
@@ -230,6 +230,11 @@ func runC12(s *kernel.Sim) {
 		ops := make([]opT, k)
 		for i := range ops {
 			ops[i] = opT{tp.Chance(2, 5), pickKey()}
+			// concurrent stores for one key (both pass the "already cached?" check)
+			if i > 0 && tp.Chance(1, 2) {
+				ops[i] = opT{true, ops[0].k}
+				ops[0].resp = true
+			}
 		}
 		if k == 1 {
 			if ops[0].resp {
